@@ -166,6 +166,33 @@ def check_C01(A: Analysis, tier):
                             "a lexically normalised path can name a different file (`dir-symlink/../x`)", A.p.loc(ev.func, ev.node))
     rules.append(rb)
 
+    re1 = Rule("C01", "C01.e", "the temp writer writes every element it hashes: the write of a stream element to the temp file and the hash update "
+               "with the same element sit under the same conditions, and the temp handle is only ever appended to (no seek / truncate)", floor=2)
+    for m in ("th",):
+        it = A.api("store_object", m)
+        writes = [ev for ev in it.events if ev.kind == "WRITE" and ev.prim == "file.write" and len(ev.paths) > 1
+                  and any(c.cls == "TMP" for c in ev.classes[0]) and any(tag(t) == "elem" for t in ev.paths[1])]
+        ups = [ev for ev in it.events if ev.kind == "HASHUPDATE" and any(tag(t) == "elem" for t in ev.paths[0])]
+        for u in ups:
+            re1.ob()
+            re1.inst(f"{u.func.qual}:{u.line} hash update with a stream element [{u.ctx[1].split('.')[-1] if len(u.ctx) > 1 else ''}]")
+            same = [w for w in writes if w.ctx == u.ctx and w.paths[1] == u.paths[0]]
+            if not same:
+                re1.fail(u.func, u.node, "a stream element is hashed but never written to the temp file: the stored bytes are not the hashed bytes",
+                         A.p.loc(u.func, u.node))
+            elif not any({(f_, pol) for f_, pol in w.facts} == {(f_, pol) for f_, pol in u.facts} for w in same):
+                w = same[0]
+                extra = [f_ for f_, pol in w.facts if (f_, pol) not in u.facts] or [f_ for f_, pol in u.facts if (f_, pol) not in w.facts]
+                re1.fail(w.func, w.node, f"the write of a stream element is conditional ({str(extra[0])[:80] if extra else '?'}) where hashing it is not (or vice versa): "
+                         "some elements are hashed but not stored, so the file at objects/<digest> does not have that digest", A.p.loc(w.func, w.node))
+        for e in ("store_object", "store_metadata"):
+            for ev in A.api(e, m).events:
+                if ev.kind == "HANDLEOP" and ev.prim in ("file.seek", "file.truncate") and any(c.cls == "TMP" for c in ev.classes[0]):
+                    re1.ob()
+                    re1.fail(ev.func, ev.node, f"{ev.prim} on the temp file being written: the writer must append every element; moving the position leaves "
+                             "holes or drops a tail", A.p.loc(ev.func, ev.node))
+    rules.append(re1)
+
     rd1 = Rule("C01", "C01.d", "Stream.__iter__ rewinds the wrapped object to offset 0, yields every chunk it reads until an empty "
                "read, yields nothing else, and restores the caller's offset afterwards; _cast_to_bytes is the identity on bytes "
                "and UTF-8 encoding otherwise", floor=3)
@@ -583,6 +610,47 @@ def check_C02(A: Analysis, tier):
     rules.append(re2)
 
     from .rules_locks import shared_state_rule
+    rg2 = Rule("C02", "C02.g", "_refine_algorithm_list returns the defaults plus EACH requested algorithm that is in the other list, whatever the "
+               "other request is (four scenario runs: checksum / additional algorithm in the other list or not)", floor=4)
+    rf_ = A.p.func(Q("_refine_algorithm_list"))
+    pnames = [a.arg for a in rf_.node.args.args if a.arg != "self"]
+
+    def other_member(which):
+        def asm(atom):
+            if atom[0] == "isnone" and atom[1] in tuple(V(P(x)) for x in pnames):
+                return False
+            if atom[0] == "cmp" and atom[1] == "in" and atom[2] and any(tag(t) == "classlist" and t[2] == "other_algo_list" for t in atom[3]):
+                for x in pnames:
+                    if all(P(x) in subterms(t) for t in atom[2]) and all(tag(t) == "param" for t in atom[2]):
+                        return which[x]
+            return None
+        return asm
+
+    if len(pnames) == 2:
+        for va in (True, False):
+            for vb in (True, False):
+                which = {pnames[0]: va, pnames[1]: vb}
+                it_r = A.run(Q("_refine_algorithm_list"), "th", tagk=f"other-{va}-{vb}", assume=other_member(which))
+                rets = [(st_, rv_) for k_, l_, st_, rv_ in it_r.exits if k_ == "return"]
+                rg2.ob()
+                rg2.inst(f"_refine_algorithm_list with {pnames[0]} in other list: {va}, {pnames[1]}: {vb} -> {len(rets)} return(s)")
+                if not rets:
+                    rg2.fail(rf_, "return", "_refine_algorithm_list does not return in a scenario with two supported algorithms", A.p.loc(rf_, rf_.node))
+                for st_, rv_ in rets:
+                    els = set()
+                    for t in rv_:
+                        for x in subterms(t):
+                            if tag(x) == "list":
+                                els |= st_.lists.get(x, EMPTY)
+                    flat = {y for e_ in els for y in subterms(e_)}
+                    for x in pnames:
+                        if which[x] and P(x) not in flat:
+                            rg2.fail(rf_, f"{x} requested", f"with {pnames[0]} {'in' if va else 'not in'} the other list and {pnames[1]} {'in' if vb else 'not in'} it, the returned "
+                                     f"list lacks the requested `{x}`: its digest is silently missing from the digest map", A.p.loc(rf_, rf_.node))
+                    if not any(tag(y) == "selfattr" and y[1] == "default_algo_list" for y in flat):
+                        rg2.fail(rf_, "defaults", "the returned list does not start from the default algorithm list", A.p.loc(rf_, rf_.node))
+    rules.append(rg2)
+
     rs2 = Rule("C02", "C02.f", "nothing a call computes is stored in the shared store object (shared with C07.g): results cannot depend on "
                "other calls through instance state", floor=10)
     shared_state_rule(A, rs2)
